@@ -10,7 +10,63 @@ COMMON_TRUSTED = [
 P = "CharsetProof.Props."
 
 PROPS = {
+    "C01": {
+        "lake_targets": [P + "C01"],
+        "theorems": [
+            (P + "C01", "C01_decodes"),
+            (P + "C01", "C01_decodes_small"),
+            (P + "C01", "C01_decodes_current"),
+            (P + "C01", "lazyLaws_now"),
+            (P + "C01", "drop_startIdx"),
+            ("CharsetProof.Lemmas.Codec", "singleByteAreTables"),
+            ("CharsetProof.Lemmas.Codec", "tableStrict_append"),
+            ("CharsetProof.Lemmas.EntryFacts", "fromBytes_facts"),
+            (P + "C07", "marksMultiByte_now"),
+            ("CharsetProof.Lemmas.SortPerm", "sortMatches_perm"),
+        ],
+        "title": "Every reported candidate really decodes the input",
+        "claim": "Lean 4 theorems over the model of from_bytes: for every world satisfying the (proved) single-byte codec laws, every table set, every non-empty input (any size, incl. the lazy path above 1,000,000 bytes) and all settings, every candidate entry of every returned match carries the unmodified input and exposes exactly the strict decode of the input minus its own mark (C01_decodes, C01_decodes_current). The 'ascii implies all bytes < 0x80' clause is FALSE on the pinned tree (known finding, repair would break the unedited test test_largesets); it is decided by the direct oracle, which separates the recorded finding (non-ASCII bytes only outside the sampled chunks) from any other failure.",
+        "note": "Trusted: Lean kernel; model tied by T1 (single-byte tables dumped from the compiled crate, kernel-checked obligations singleByteAreTables / marksMultiByte_now) and T3 (model vs implementation on generated inputs incl. >1 MB); CJK codecs are oracle-answered (opaque). ascii clause: known finding C01:ascii-nonascii-outside-sampled-chunks.",
+        "trusted": ["CJK/ISO-2022 codecs of the `encoding` crate are opaque: their decodes are supplied by the real function; single-byte, UTF-8 and UTF-16 codecs are Lean definitions"],
+        "assumptions": ["b ≠ [] (empty input returns the default match without text)", "LazyLaws are proved for the concrete world (lazyLaws_now), not assumed"],
+    },
+    "C04": {
+        "lake_targets": [P + "C04"],
+        "theorems": [
+            (P + "C04", "C04_threshold"),
+            (P + "C04", "C04_lt"),
+            (P + "C04", "C04_percents"),
+            (P + "C04", "C04_coherence_head"),
+            (P + "C04", "C04_coherence_range"),
+            (P + "C04", "C04_threshold_current"),
+            ("CharsetProof.Lemmas.EntryFacts", "fromBytes_facts"),
+            ("CharsetProof.Lemmas.SortPerm", "sortMatches_perm"),
+        ],
+        "title": "Chaos threshold is honoured; fallback only when nothing else fits",
+        "claim": "Lean 4 theorems: for all worlds/tables/inputs/settings either every candidate failed the test chaos >= threshold (hence chaos < threshold for numeric values, C04_lt) or the result is exactly one fallback match with chaos = threshold, fallback enabled and an encoding among the hints (C04_threshold); percent accessors are the f32 product with 100; coherence lies in [0,1] whenever merged scores do (C04_coherence_range). Non-negativity/finiteness of chaos and the 'valid UTF-8 is never binary' clause are decided by the direct oracle and the T3 correspondence (theorems for them are listed as future work in DESIGN.md).",
+        "note": "Trusted: Lean kernel; model tied by T3 with thresholds set to observed chaos values (both sides of >=). Partial: `0 <= chaos`, finiteness and the valid-UTF-8 clause are checked on the implementation by the oracle, not yet proved about the model.",
+        "assumptions": ["C04_coherence_range assumes merged scores in [0,1] (law of World.merge), asserted by the oracle on the implementation"],
+    },
+    "C07": {
+        "lake_targets": [P + "C07"],
+        "theorems": [
+            (P + "C07", "C07_bom"),
+            (P + "C07", "C07_bom_current"),
+            (P + "C07", "marksMultiByte_now"),
+            (P + "C07", "marksPrefixFree_now"),
+            (P + "C07", "bomHere_iff"),
+            ("CharsetProof.Lemmas.EntryFacts", "fromBytes_facts"),
+            ("CharsetProof.Lemmas.SortPerm", "sortMatches_perm"),
+        ],
+        "title": "BOM/signature flag is truthful; UTF-16 only with its BOM",
+        "claim": "Lean 4 theorem C07_bom: for every world and every table set whose marked encodings are multi-byte (kernel-checked for the dumped tables), every candidate entry: flag set => input starts with that encoding's mark and the text is the strict decode of the bytes after the mark; mark present and match regular (chaos < threshold) => flag set; UTF-16LE/BE are candidates only with their BOM. Marks are prefix-free (kernel-checked), so the hash-ordered lookup is order-independent.",
+        "note": "Trusted: Lean kernel; T1 marks table dumped from the compiled crate; T3 on inputs with every mark alone / doubled / followed by invalid bytes / by text in other encodings / truncated.",
+        "assumptions": ["threshold is not NaN (quantifier: thresholds in [0,1])", "b ≠ []"],
+    },
     "C05": {
+        "title": "include/exclude are exact filters and accept any label spelling",
+        "claim": "Lean 4 theorems over the model of from_bytes: for every world, table set, input and settings every candidate of every returned match passes the canonicalised filters (C05_filters), unknown labels produce an error naming the entry (C05_unknown_include/_exclude), and the result depends on the lists only through their canonical forms (C05_spelling_irrelevant, C05_canonical_current); tied to the current tree by regenerated label tables, the correspondence of the compiled model against the implementation and a direct oracle.",
+        "note": "Trusted: Lean kernel (+propext, Classical.choice, Quot.sound), the hand-written model (tied by T1 tables / T3 correspondence), the harness; empty input is the excluded point of the theorem and a recorded known finding.",
         "lake_targets": [P + "C05"],
         "theorems": [
             (P + "C05", "C05_filters"),
